@@ -175,8 +175,8 @@ class TypeScriptComparisonTracker(TypeScriptBaseAnalyzer):  # thailint: ignore[s
         """
         operands = []
         for child in node.children:
-            # Skip operators
-            if child.type not in ("===", "==", "!==", "!="):
+            # Skip operators (and comments written between the operands)
+            if child.type not in ("===", "==", "!==", "!=", "comment"):
                 operands.append(child)
 
         if len(operands) >= 2:
